@@ -165,6 +165,8 @@ type sg struct {
 	rhConfigOK    bool              // snap.Config has been checked against the model's record
 	rhExtSigs     map[string]string // the signatures of package geomhelp
 	dio, dioAlias bool              // dedupeInnersOuters (dedupe.go): maps, ordered maps, two results; type IsOuter = bool seen
+	splitWalk     bool              // the first part of splitRing (splitwalk.go)
+	walkN         int               // range-loop bodies emitted as definitions (splitwalk.go)
 	cur           *sgSig
 	n             int
 	loopN         int
@@ -275,7 +277,7 @@ func (g *sg) expr(env *sgEnv, x ast.Expr, binds *[]string) (sgVal, error) {
 			if t == stOpaque {
 				return sgVal{}, fmt.Errorf("the parameter %s may only be passed to a panic helper", x.Name)
 			}
-			if t == stView || t == stCMap || t == stCKeys {
+			if t == stView || t == stCMap || t == stCKeys || t == stWMap || t == stWPair || t == stMultiSet {
 				return sgVal{}, fmt.Errorf("%s may only be indexed / ranged over", x.Name)
 			}
 			return sgVal{code: "v_" + x.Name, ty: t}, nil
@@ -516,12 +518,19 @@ func (g *sg) expr(env *sgEnv, x ast.Expr, binds *[]string) (sgVal, error) {
 			}
 			return sgVal{code: "[" + strings.Join(items, "; ") + "]", ty: stRings}, nil
 		}
+		if ty == stInts && len(x.Elts) != 0 && g.splitWalk {
+			return g.walkIntsLit(env, x, binds)
+		}
 		if ty != stInts || len(x.Elts) != 0 {
 			return sgVal{}, fmt.Errorf("unsupported composite literal")
 		}
 		return sgVal{code: "(@nil Z)", ty: stInts}, nil
 	case *ast.CallExpr:
 		return g.call(env, x, binds)
+	case *ast.SelectorExpr:
+		if g.splitWalk {
+			return g.walkSelector(env, x)
+		}
 	}
 	if g.rh {
 		return g.rhExpr(env, x, binds)
@@ -628,6 +637,11 @@ func (g *sg) call(env *sgEnv, x *ast.CallExpr, binds *[]string) (sgVal, error) {
 			return v, err
 		}
 	}
+	if g.splitWalk {
+		if v, handled, err := g.walkCall(env, x, binds); handled {
+			return v, err
+		}
+	}
 	if g.dedup {
 		if v, handled, err := g.dedupCall(env, x, binds); handled {
 			return v, err
@@ -640,8 +654,8 @@ func (g *sg) call(env *sgEnv, x *ast.CallExpr, binds *[]string) (sgVal, error) {
 	}
 	if g.cleanup {
 		if id, ok := x.Fun.(*ast.Ident); ok && id.Name == "splitRing" {
-			// splitRing(ring, isOuter, hitMultiple, ringIdx): the model's splitRing; (hitMultiple, ringIdx) only
-			// decide which vertices count as hit by several rings = the model's predicate isMulti
+			// splitRing(ring, isOuter, hitMultiple, ringIdx): the regenerated gen_splitRing of SplitWalkGen.v (splitwalk.go);
+			// (hitMultiple, ringIdx) only decide which vertices count as hit by several rings = the predicate isMulti
 			if _, shadow := env.vars[id.Name]; shadow || g.funcs["splitRing"] == nil || len(x.Args) != 4 {
 				return sgVal{}, fmt.Errorf("unsupported call of splitRing")
 			}
@@ -663,7 +677,7 @@ func (g *sg) call(env *sgEnv, x *ast.CallExpr, binds *[]string) (sgVal, error) {
 				return sgVal{}, fmt.Errorf("splitRing: unsupported arguments")
 			}
 			t := g.fresh("t")
-			*binds = append(*binds, fmt.Sprintf("do %s <- splitRing %s %s isMulti;", t, r.code, o.code))
+			*binds = append(*binds, fmt.Sprintf("do %s <- gen_splitRing %s %s isMulti;", t, r.code, o.code))
 			return sgVal{code: t, ty: stSets}, nil
 		}
 	}
@@ -831,6 +845,10 @@ func sgAssigned(stmts []ast.Stmt, acc map[string]bool) {
 						target(sel.X)
 						return true
 					}
+					if sel, ok := c.Fun.(*ast.SelectorExpr); ok && (sel.Sel.Name == "Insert" || sgWalkMutators[sel.Sel.Name]) { // X.Insert(k, v) changes X
+						target(sel.X)
+						return true
+					}
 					for _, a := range c.Args {
 						if id, ok := a.(*ast.Ident); ok {
 							acc["call:"+id.Name] = true
@@ -993,6 +1011,9 @@ func (g *sg) stmts(env *sgEnv, list []ast.Stmt, k lcont, ctx *sgCtx) (string, er
 		}
 		return sgJoin(lines, body), nil
 	case *ast.RangeStmt:
+		if g.splitWalk && walkHasIndexVar(s) {
+			return g.walkIndexRange(env, s, after(env), ctx)
+		}
 		return g.rangeLoop(env, s, after(env), ctx)
 	case *ast.BranchStmt:
 		if s.Tok == token.CONTINUE && s.Label == nil {
@@ -1027,6 +1048,9 @@ func (g *sg) stmts(env *sgEnv, list []ast.Stmt, k lcont, ctx *sgCtx) (string, er
 	case *ast.ExprStmt:
 		return g.callStmt(env, s, rest, k, ctx)
 	case *ast.IfStmt:
+		if s.Init != nil && g.splitWalk {
+			return g.walkIfInit(env, s, after(env), ctx)
+		}
 		if s.Init != nil {
 			if g.rh {
 				return g.rhIfInit(env, s, rest, k, ctx)
@@ -1070,6 +1094,11 @@ func (g *sg) stmts(env *sgEnv, list []ast.Stmt, k lcont, ctx *sgCtx) (string, er
 				return out, err
 			}
 		}
+		if s.Init != nil && g.splitWalk {
+			if out, handled, err := g.walkPairLoop(env, s, after(env), ctx); handled {
+				return out, err
+			}
+		}
 		if s.Init != nil { // for init; cond; post {}  =  init; for ; cond; post {}  (the loop variable stays declared)
 			as, ok := s.Init.(*ast.AssignStmt)
 			if !ok || as.Tok != token.DEFINE {
@@ -1092,6 +1121,18 @@ func (g *sg) callStmt(env *sgEnv, s *ast.ExprStmt, rest []ast.Stmt, k lcont, ctx
 	}
 	if g.rh {
 		if line, handled, err := g.rhStmt(env, c); handled {
+			if err != nil {
+				return "", err
+			}
+			body, err := g.stmts(env, rest, k, ctx)
+			if err != nil {
+				return "", err
+			}
+			return line + "\n  " + body, nil
+		}
+	}
+	if g.splitWalk {
+		if line, handled, err := g.walkCallStmt(env, c); handled {
 			if err != nil {
 				return "", err
 			}
@@ -1185,12 +1226,24 @@ func (g *sg) assign(env *sgEnv, s *ast.AssignStmt, rest []ast.Stmt, k lcont, ctx
 	if s.Tok != token.DEFINE && s.Tok != token.ASSIGN {
 		return "", fmt.Errorf("unsupported assignment operator %s", s.Tok)
 	}
+	if g.splitWalk {
+		if lines, env3, handled, err := g.walkDefine(env, s); handled {
+			if err != nil {
+				return "", err
+			}
+			body, err := g.stmts(env3, rest, k, ctx)
+			if err != nil {
+				return "", err
+			}
+			return sgJoin(lines, body), nil
+		}
+	}
 	if len(s.Lhs) != len(s.Rhs) {
 		return "", fmt.Errorf("unsupported assignment of a multi-valued expression")
 	}
 	// v = append(v, x)
 	if c, ok := s.Rhs[0].(*ast.CallExpr); ok && len(s.Rhs) == 1 {
-		if f, ok := c.Fun.(*ast.Ident); ok && f.Name == "append" {
+		if f, ok := c.Fun.(*ast.Ident); ok && f.Name == "append" && !g.splitWalk { // splitWalk: append is an expression (walkCall)
 			if _, shadow := env.vars["append"]; !shadow {
 				t, ok1 := s.Lhs[0].(*ast.Ident)
 				var a0 *ast.Ident
